@@ -108,6 +108,10 @@ func (w *World) VerifyFunction(fn *ssa.Function, opts VerifyOpts) (res *FuncResu
 	}
 	fr.Lvl = Var("lvl", SInt)
 	st.ghost["$out"] = SV{T: Var("out0", SString), Ty: SType{G: types.Typ[types.String]}}
+	if fr.Ctr != nil && len(fr.Ctr.CallbackParams) > 0 {
+		st.ghost["$ncalls"] = SV{T: Var("ncalls0", SInt), Ty: tInt}
+		st.Assume(Ge(Var("ncalls0", SInt), IntLit(0)))
+	}
 	st.ghost["$cap"] = SV{T: Var("cap0", SInt), Ty: tInt}
 	st.ghost["$dom"] = SV{T: Var("dom0", SInt), Ty: tInt}
 	fr.Entry = st.Clone()
